@@ -48,6 +48,10 @@ def run_families(ctx, prop, families=None, judge_parallel=6, sub=SUB, judge=JUDG
         else:
             p, n = pipeline.gen_tlc(ctx, "OFGen", cfg(fam, tags, stride, ctx.seed % stride, COUNT[ctx.tier], ctx.seed), "OFGen[%s]" % fam, fam,
                                     expect_min=max(1, emin // (stride * 2)), workers=8, xmx="8g")
+        if fam not in ("T", "EB"):
+            bad = [r["id"] for r in vlib.read_ndjson(p) if r.get("specwalk") is False]
+            if bad:
+                raise vlib.Infra("OFWire.tla is inconsistent with itself: Walk rejects Enc(tree) for %s (%d scenarios)" % (bad[:3], len(bad)))
         if transform:
             rows = [x for x in (transform(r) for r in vlib.read_ndjson(p)) if x is not None]
             vlib.write_ndjson(p, rows)
